@@ -171,7 +171,13 @@ class ZConfigParser:
 
     def handle_include(self, section, rest):
         rest = self.replace(rest.strip())
-        newurl = ZConfig.url.urljoin(self.url, rest)
+        try:
+            newurl = ZConfig.url.urljoin(self.url, rest)
+        except ValueError as e:
+            # urllib refuses some malformed references (e.g. an
+            # unbalanced '[' in the host part)
+            self.error("malformed URL in %include: {!r} ({})".format(
+                rest, e))
         self.context.includeConfiguration(section, newurl, self.defines)
 
     def handle_define(self, section, rest):
